@@ -29,6 +29,14 @@ pub struct C13Case {
     /// unrelated system call left behind): 0 untouched, 1 EINTR, 2 EAGAIN, 3 EBADF, 4 EPIPE
     #[serde(default)]
     pub errno_before: u8,
+    /// the second registration shares the first one's pipe through a dup'ed descriptor (one pipe
+    /// serving two registrations): file status flags live on the shared open file description
+    #[serde(default)]
+    pub share: bool,
+    /// the reader hangs up (all read ends closed) before the last burst: wake-ups fail with EPIPE,
+    /// the descriptor nevertheless stays the action's until the action is removed
+    #[serde(default)]
+    pub reader_gone: bool,
 }
 
 pub fn strategy() -> BoxedStrategy<C13Case> {
@@ -42,8 +50,10 @@ pub fn strategy() -> BoxedStrategy<C13Case> {
         prop_oneof![5 => Just(0u8), 1 => Just(1u8), 1 => Just(2u8), 1 => Just(3u8), 1 => Just(4u8)],
         prop::bool::weighted(0.5),
         prop_oneof![3 => Just(0u8), 2 => Just(1u8), 1 => Just(2u8), 1 => Just(3u8), 1 => Just(4u8)],
+        prop::bool::weighted(0.5),
+        prop::bool::weighted(0.2),
     )
-        .prop_map(|(kind, raw, fill, k, bursts, second, reject, reuse_probe, errno_before)| C13Case { kind, raw, fill, k, bursts, second, reject, reuse_probe, errno_before })
+        .prop_map(|(kind, raw, fill, k, bursts, second, reject, reuse_probe, errno_before, share, reader_gone)| C13Case { kind, raw, fill, k, bursts, second, reject, reuse_probe, errno_before, share, reader_gone })
         .boxed()
 }
 
@@ -253,7 +263,12 @@ fn child(case: &C13Case, fd: i32) {
     let flags_after = unsafe { libc::fcntl(wdup, libc::F_GETFL) };
     emit(fd, &json!({"k": "registered", "prefill": prefill, "nonblock": flags_after & libc::O_NONBLOCK != 0, "w": w}));
     let second = if case.second {
-        let (r2, w2) = make_pair(kind).unwrap();
+        let (r2, w2) = if case.share && kind != 4 {
+            // the same pipe through another descriptor; its reader is the first one's
+            (r, unsafe { libc::dup(wdup) })
+        } else {
+            make_pair(kind).unwrap()
+        };
         match register(case.raw, SIG, w2) {
             Ok(id2) => {
                 crate::sysspy::watch(1, w2);
@@ -265,7 +280,15 @@ fn child(case: &C13Case, fd: i32) {
         None
     };
     let mut first = true;
+    let shared_second = second.as_ref().map_or(false, |s| s.0 == r);
+    let mut reader_closed = false;
     for (bi, n) in case.bursts.iter().enumerate() {
+        if case.reader_gone && kind != 4 && bi + 1 == case.bursts.len() && !reader_closed {
+            // every read end goes away: from now on a wake-up attempt fails with EPIPE
+            unsafe { libc::close(r) };
+            reader_closed = true;
+            emit(fd, &json!({"k": "reader-gone"}));
+        }
         emit(fd, &json!({"k": "burst-start", "i": bi, "n": n}));
         let e = match case.errno_before % 5 {
             1 => libc::EINTR,
@@ -288,14 +311,19 @@ fn child(case: &C13Case, fd: i32) {
         }
         crate::sysspy::clear_limit();
         let (att, att2) = (crate::sysspy::attempts(0) - a0, crate::sysspy::attempts(1) - a1);
+        if reader_closed {
+            // nothing can be read back; what matters is that the action still owns its descriptor
+            emit(fd, &json!({"k": "burst-readerless", "i": bi, "n": n, "att": att, "w_open": fd_valid(w), "w2_open": second.as_ref().map(|s| fd_valid(s.1))}));
+            continue;
+        }
         let got = drain(r, kind);
         let xs = got.iter().filter(|b| **b == b'X').count();
         let ps = got.iter().filter(|b| **b == b'P').count();
         let empties = got.iter().filter(|b| **b == 0xFF).count();
         let other = got.len() - xs - ps - empties;
-        let mut rec = json!({"k": "burst", "i": bi, "n": n, "x": xs, "p": ps, "empty": empties, "other": other, "prefill": if first { prefill } else { 0 }, "att": att, "att2": att2,
+        let mut rec = json!({"k": "burst", "i": bi, "n": n, "x": xs, "shared": shared_second, "p": ps, "empty": empties, "other": other, "prefill": if first { prefill } else { 0 }, "att": att, "att2": att2,
             "not_one": crate::sysspy::not_one(0) + crate::sysspy::not_one(1), "blocking_sends": crate::sysspy::blocking_sends(0) + crate::sysspy::blocking_sends(1)});
-        if let Some((r2, _, _)) = &second {
+        if let Some((r2, _, _)) = second.as_ref().filter(|s| s.0 != r) {
             let g2 = drain(*r2, kind);
             rec["x2"] = json!(g2.iter().filter(|b| **b == b'X').count());
             rec["other2"] = json!(g2.iter().filter(|b| **b != b'X' && **b != 0xFF).count());
@@ -312,7 +340,8 @@ fn child(case: &C13Case, fd: i32) {
         }
     };
     let open_after = fd_valid(w);
-    emit(fd, &json!({"k": "unregistered", "ret": un, "w_open": open_after}));
+    let sibling_nonblock = if shared_second { Some(unsafe { libc::fcntl(wdup, libc::F_GETFL) } & libc::O_NONBLOCK != 0) } else { None };
+    emit(fd, &json!({"k": "unregistered", "ret": un, "w_open": open_after, "sibling_nonblock": sibling_nonblock}));
     let att_at_removal = crate::sysspy::attempts(0);
     if case.reuse_probe && !open_after {
         // take the number for an unrelated pipe and go on living
@@ -329,10 +358,16 @@ fn child(case: &C13Case, fd: i32) {
         let n = unsafe { libc::read(p[0], b.as_mut_ptr() as *mut _, 16) };
         emit(fd, &json!({"k": "reuse", "same_number": same, "second_unregister": un2, "still_valid": valid, "bytes": n.max(0), "att_after_removal": crate::sysspy::attempts(0) - att_at_removal}));
         // bytes written after removal would also reach the old reader
-        let late = drain(r, kind);
-        emit(fd, &json!({"k": "late", "x": late.iter().filter(|b| **b == b'X').count()}));
+        if !reader_closed {
+            let late = drain(r, kind);
+            emit(fd, &json!({"k": "late", "x": late.iter().filter(|b| **b == b'X').count()}));
+        }
     }
-    if let Some((r2, _w2, id2)) = second {
+    if reader_closed {
+        if let Some((_, _, id2)) = second {
+            signal_hook::low_level::unregister(id2);
+        }
+    } else if let Some((r2, _w2, id2)) = second {
         // the second registration keeps working after the first is gone
         drain(r2, kind);
         unsafe { libc::raise(SIG) };
@@ -438,6 +473,8 @@ pub fn run_case(case: &C13Case) -> CaseReport {
         if other > 0 {
             rep.viol("C13/count", format!("unexpected bytes in the self-pipe: {}", r));
         }
+        // two registrations writing into one shared pipe: twice the bytes, two probe messages
+        let f = if r["shared"] == true { 2 } else { 1 };
         let att = r["att"].as_u64().unwrap_or(0);
         if att != n {
             rep.viol("C13/attempts", format!("{} deliveries made {} write/send attempts on the self-pipe (exactly one each is required, full or not)", n, att));
@@ -451,17 +488,17 @@ pub fn run_case(case: &C13Case) -> CaseReport {
         if r["blocking_sends"].as_u64().unwrap_or(0) != 0 {
             rep.viol("C13/blocking-fd", format!("{} wake-up sends without MSG_DONTWAIT", r["blocking_sends"]));
         }
-        if empties > 1 {
-            rep.viol("C13/count", format!("{} empty datagrams (one probe message is documented)", empties));
+        if empties > f {
+            rep.viol("C13/count", format!("{} empty datagrams (one probe message per registration is documented)", empties));
         }
-        if x > n {
+        if x > f * n {
             rep.viol("C13/count", format!("{} deliveries wrote {} bytes", n, x));
         }
         if n >= 1 && x + p == 0 {
             rep.viol("C13/count", format!("{} deliveries but the reader sees nothing", n));
         }
         // room for all of them: exactly one byte per delivery
-        if pending_before + n + 2 <= cap / 2 && x != n {
+        if pending_before + f * n + 2 <= cap / 2 && x != f * n {
             rep.viol("C13/count", format!("{} deliveries into a descriptor with room for {} more bytes wrote {} bytes", n, cap - pending_before, x));
         }
         if pending_before + n > cap {
@@ -470,7 +507,7 @@ pub fn run_case(case: &C13Case) -> CaseReport {
         if p != pending_before {
             rep.viol("C13/count", format!("pre-filled bytes changed: {} written, {} read back", pending_before, p));
         }
-        if case.second {
+        if case.second && f == 1 {
             if let Some(x2) = r["x2"].as_u64() {
                 if x2 > n || (n >= 1 && x2 == 0) || (n + 2 <= cap / 2 && x2 != n) || r["other2"].as_u64().unwrap_or(0) > 0 {
                     rep.viol("C13/count", format!("second self-pipe on the same signal: {} deliveries, {} bytes", n, x2));
@@ -479,7 +516,23 @@ pub fn run_case(case: &C13Case) -> CaseReport {
         }
         pending_before = 0;
     }
+    for r in recs.iter().filter(|r| r["k"] == "burst-readerless") {
+        rep.class("reader-hung-up");
+        if r["w_open"] != true || r["w2_open"] == false {
+            rep.viol("C13/closed-early", format!("after {} deliveries into a pipe whose reader had hung up, the action's descriptor is gone although the action is still registered (released inside a delivery, not by the removal)", r["n"]));
+        }
+        let n = r["n"].as_u64().unwrap_or(0);
+        if r["att"].as_u64().unwrap_or(0) > n {
+            rep.viol("C13/attempts", format!("{} deliveries made {} attempts on a reader-less self-pipe", n, r["att"]));
+        }
+    }
     if let Some(u) = recs.iter().find(|r| r["k"] == "unregistered") {
+        if u["sibling_nonblock"] == false && case.kind % 5 == 0 {
+            rep.viol("C13/blocking-fd", "two registrations share one pipe through dup'ed descriptors; removing the first one put the pipe back into blocking mode while the second is still registered".into());
+        }
+        if u["sibling_nonblock"].is_boolean() {
+            rep.class("shared-pipe-sibling");
+        }
         if u["ret"] != true {
             rep.viol("C13/unregister", "unregister of the self-pipe action returned false".into());
         }
@@ -496,8 +549,10 @@ pub fn run_case(case: &C13Case) -> CaseReport {
             rep.viol("C13/fd-reuse-hit", format!("after removal the descriptor number was reused by the application and then touched by the library: {}", u));
         }
     }
+    let shared_any = recs.iter().any(|r| r["k"] == "burst" && r["shared"] == true) || recs.iter().any(|r| r["k"] == "unregistered" && r["sibling_nonblock"].is_boolean());
     if let Some(l) = recs.iter().find(|r| r["k"] == "late") {
-        if l["x"].as_u64().unwrap_or(0) != 0 {
+        // (a sibling registration sharing the pipe legitimately keeps writing into it)
+        if l["x"].as_u64().unwrap_or(0) != 0 && !shared_any {
             rep.viol("C13/written-after-removal", "bytes were written to the self-pipe after its action was removed".into());
         }
     }
